@@ -13,7 +13,7 @@ From Soy Require Import Model.Ast Model.Token Model.Lexer Model.Parser Generated
 From Soy Require Import Spec.TextBody Proofs.LexTokens Proofs.LexPrintTop Proofs.LexBodyLit Proofs.LexBodyMain Proofs.BodyCmdMain.
 From Soy Require Import Spec.TextMix Proofs.BodyMixMain Proofs.LexBodySeg Proofs.LexBodyMix Proofs.ExprParserRules Proofs.ParseBodyText Proofs.BodyStretchAny.
 From Soy Require Import Spec.TextTemplate Proofs.ParserProofs Proofs.BodyTemplateMain.
-From Soy Require Import Model.AstPrint Spec.ExprSyntax Spec.TextTags Proofs.LexPrintMain Proofs.LexPrintCmd Proofs.CmdParserStripDefs Proofs.LexBodyTags Proofs.BodyTagsMain.
+From Soy Require Import Model.AstPrint Spec.ExprSyntax Spec.TextTags Proofs.LexPrintMain Proofs.LexPrintCmd Proofs.CmdParserStripDefs Proofs.LexBodyTags Proofs.BodyTagsMain Proofs.BodyTagsTpl.
 Open Scope N_scope.
 
 (* The loop of parse/rawtext.go returns exactly the Spec's normalisation, under
@@ -534,6 +534,62 @@ Proof.
     left. vm_compute. auto 12. }
   split.
   { unfold c15_lex_oks, c15_ex_tags. cbn [snd]. repeat constructor; cbn [fst].
+    exists 100, []. repeat split; try reflexivity; lia. }
+  split; [vm_compute; reflexivity|]. split; [vm_compute; reflexivity|]. vm_compute. reflexivity.
+Qed.
+
+(* ---- the same INSIDE A TEMPLATE, as a theorem about a whole minimal file (Spec/TextTags.v c15_tpl_file) ----
+   {template .name} T0 tag1 T1 ... tagn Tn {/template}  with print commands, special-character commands and literal
+   blocks as tags; every stretch, the first and the last included, stands between two tags.  Scanner model on the
+   file, model of parse.SoyFile under its own budget (itemList -> beginTag -> parseTemplate -> itemList(until
+   {/template}) one level down, where beginTag's implicit-print case reads the print commands): a file whose one
+   node is a template whose body's children read as the Spec says (c15_tpl_out).  The body loop is proved for an
+   arbitrary until-set (Proofs/BodyTagsTpl.v gshapeT_run), the budget argument is the one of
+   C15_body_text_print_tags_spec, carried through parseTemplate (tags_template_file_run). *)
+Theorem C15_template_body_text_print_tags_spec : forall lexq unq name T0 rest out,
+  lexq_wf lexq -> tpl_name_wf name -> c15_tpl_ok print_node T0 rest -> c15_lex_oks rest -> c15_tpl_out T0 rest = Some out ->
+  exists items pos tp nm ae pv bpos nodes st,
+    lex_items is_letter_tbl is_digit_tbl (lex_budget (c15_tpl_file name T0 rest)) false (c15_tpl_file name T0 rest) = Ok items /\
+    po_result (soy_file (N.of_nat (length (c15_tpl_file name T0 rest))) lexq unq items)
+      = POk (NList pos [NTemplate tp nm (NList bpos nodes) ae pv]) st /\
+    c15_view0 (map cps_strip nodes) = out.
+Proof.
+  intros lexq unq name T0 rest out Hq. destruct tables_ascii as [Hl Hd]. destruct tables_eof as [El Ed].
+  exact (template_body_tags_impl_spec is_letter_tbl is_digit_tbl Hl Hd El Ed lexq unq Hq name T0 rest out).
+Qed.
+Print Assumptions C15_template_body_text_print_tags_spec.
+
+Definition c15_ex_tpl_tags : bstr * list c15_tseg :=
+  ([10] ++ b "  Hello " ,
+   [(C15Print (NPrint 0 (NDataRef 0 (b "name") []) [NDirective 0 (b "d") []]) (b "{$name|d}"), b "!//not a comment" ++ [10] ++ b "  /* c */");
+    (C15Text (b "\n", [10]), [10] ++ b " bye" ++ [10])]).
+Example C15_ex_template_print_tags :
+  tpl_name_wf (b "t") /\ c15_tpl_ok print_node (fst c15_ex_tpl_tags) (snd c15_ex_tpl_tags) /\ c15_lex_oks (snd c15_ex_tpl_tags) /\
+  c15_tpl_file (b "t") (fst c15_ex_tpl_tags) (snd c15_ex_tpl_tags) =
+    b "{template .t}" ++ [10] ++ b "  Hello {$name|d}!//not a comment" ++ [10] ++ b "  /* c */{\n}" ++ [10] ++ b " bye" ++ [10] ++ b "{/template}" /\
+  c15_tpl_out (fst c15_ex_tpl_tags) (snd c15_ex_tpl_tags) =
+    Some (b "Hello ", [(NPrint 0 (NDataRef 0 (b "name") []) [NDirective 0 (b "d") []], b "!//not a comment" ++ [10] ++ b "bye")]) /\
+  match lex_items is_letter_tbl is_digit_tbl (lex_budget (c15_tpl_file (b "t") (fst c15_ex_tpl_tags) (snd c15_ex_tpl_tags))) false (c15_tpl_file (b "t") (fst c15_ex_tpl_tags) (snd c15_ex_tpl_tags)) with
+  | Ok items =>
+      match po_result (soy_file 200 (fun _ => []) (fun _ => None) items) with
+      | POk (NList _ [NTemplate _ _ (NList _ nodes) _ _]) _ => Some (c15_view0 (map cps_strip nodes)) = c15_tpl_out (fst c15_ex_tpl_tags) (snd c15_ex_tpl_tags)
+      | _ => False
+      end
+  | _ => False
+  end.
+Proof.
+  assert (Hplain : forall s : bstr, forallb (fun c => negb (c =? 0) && negb (c =? 123) && negb (c =? 125)) s = true ->
+                   Forall (fun c => c <> 0 /\ c <> 123 /\ c <> 125) s).
+  { intros s H. apply Forall_forall. intros c Hc. rewrite forallb_forall in H. specialize (H c Hc). lia. }
+  split; [split; vm_compute; reflexivity|].
+  split.
+  { unfold c15_tpl_ok, c15_ex_tpl_tags. cbn [fst snd]. split.
+    - split; [apply Hplain; vm_compute; reflexivity|intros _; vm_compute; reflexivity].
+    - apply Forall_cons; [|apply Forall_cons; [|apply Forall_nil]]; cbn [fst snd c15_tag_ok].
+      + split; [split; [vm_compute; tauto|vm_compute; reflexivity]|split; [apply Hplain; vm_compute; reflexivity|intros _; vm_compute; reflexivity]].
+      + split; [left; vm_compute; auto 12|split; [apply Hplain; vm_compute; reflexivity|intros _; vm_compute; reflexivity]]. }
+  split.
+  { unfold c15_lex_oks, c15_ex_tpl_tags. cbn [snd]. repeat constructor; cbn [fst].
     exists 100, []. repeat split; try reflexivity; lia. }
   split; [vm_compute; reflexivity|]. split; [vm_compute; reflexivity|]. vm_compute. reflexivity.
 Qed.
